@@ -271,6 +271,28 @@ impl<'de> Deserialize<'de> for Vp {
     }
 }
 
+impl Serialize for Kn {
+    fn serialize<S: Serializer>(&self, s: S) -> Result<S::Ok, S::Error> {
+        s.serialize_u64(pack_key(self.id, self.stamp))
+    }
+}
+impl<'de> Deserialize<'de> for Kn {
+    fn deserialize<D: Deserializer<'de>>(d: D) -> Result<Self, D::Error> {
+        let x = u64::deserialize(d)?;
+        Ok(Kn::mk(x >> 24, x & 0xFF_FFFF))
+    }
+}
+impl Serialize for Vn {
+    fn serialize<S: Serializer>(&self, s: S) -> Result<S::Ok, S::Error> {
+        s.serialize_u64(self.0)
+    }
+}
+impl<'de> Deserialize<'de> for Vn {
+    fn deserialize<D: Deserializer<'de>>(d: D) -> Result<Self, D::Error> {
+        Ok(Vn(u64::deserialize(d)?))
+    }
+}
+
 // ---------------------------------------------------------------- zero-sized / tiny element probe (C20)
 #[derive(PartialEq, Eq, Hash, Debug, Clone, Copy)]
 pub struct Z0;
